@@ -621,7 +621,7 @@ def detect_variant(ctx, cases, obs):
 def run_group(ctx, pid, ncases=None, only_cases=None):
     ctx.rule = ("cases: corpus of minimal past failures first, then random schedules of submit / cancel / load-ok / load-fail / ping-fail / tick / "
                 "explicit unload and of the scheduler's own goroutines (one synchronisation operation at a time) over <= 3 models and <= 6 requests, "
-                "classes random / expiry-race / reuse / queue / join-during-load / twogpu / fit; non-trivial = at least one runner was started and one request answered; "
+                "classes random / handover-cancel / expiry-race / reuse / queue / join-during-load / twogpu / fit; non-trivial = at least one runner was started and one request answered; "
                 "distinct = by the observed choice sequence")
     ctx.trusted = ["Coq 8.16.1 kernel + vm_compute", "hand-written LTS coq/Sched/Lts.v tied to server/sched.go by the conformance run only",
                    "the instrumenter harness/instr (adds yield points, resolves select nondeterminism, swaps sync.Mutex for a channel-backed mutex)",
@@ -755,11 +755,11 @@ MANIFEST = {
                 "is also monitored directly on the real traces.",
         "design_ref": "DESIGN.md section 5, C01; notes/C01.md",
     },
-    "level_note": "Theorems hold for the repaired scheduler (fix commits 769ee6347, 27da3f16f, 840d0e442, 1035ca194 + fixes/C01-abandoned-load-reused.patch; refuted for the code as found, Sched/Refute.v). "
+    "level_note": "Theorems hold for the repaired scheduler (fix commits 769ee6347, 27da3f16f, 840d0e442, 1035ca194, 6ba03e7c1; refuted for the code as found, Sched/Refute.v). "
                   "Partial: no termination measure (the quiescent states are characterised, C02_quiescent_complete, but reaching quiescence is only monitored); "
                   "C11 memory fit: the model's placement is an oracle; C11_fit_before_start proves a server is started only after the oracle answered 'fits' or with "
                   "nothing loaded, the oracle's meaning (real PredictServerFit arithmetic) is monitored with an independent fit computation, not proved. "
-                  "C01/C02 on /repo need fixes/C01-abandoned-load-reused.patch (a runner whose load was abandoned stays reusable until its expired event is processed). "
+                  
                   "The model-to-code tie is trace conformance on generated schedules (generator-bounded). See notes/C01.md.",
     "technique": "Coq proof (invariants over the reachable states of an LTS) + trace-conformance check against the steered real scheduler",
 }
